@@ -46,7 +46,22 @@ func cmdCheck(args []string) int {
 	evPath := filepath.Join(verifDir, "evidence", id+".json")
 	inconclusive := []string{}
 
-	p, err := loadProgram(harnessPaths(spec.Files), nil)
+	progs := map[string]*Program{}
+	getProg := func(files []string) (*Program, error) {
+		if len(files) == 0 {
+			files = spec.Files
+		}
+		k := strings.Join(files, ",")
+		if p, ok := progs[k]; ok {
+			return p, nil
+		}
+		p, err := loadProgram(harnessPaths(files), nil)
+		if err == nil {
+			progs[k] = p
+		}
+		return p, err
+	}
+	p, err := getProg(spec.Files)
 	if err != nil {
 		inconclusive = append(inconclusive, "cannot load /repo with the harness overlay: "+err.Error())
 		fmt.Printf("INCONCLUSIVE property=%s reason=%s\n", id, strings.ReplaceAll(inconclusive[0], "\n", " "))
@@ -83,7 +98,12 @@ func cmdCheck(args []string) int {
 		if ts.DPOR != nil {
 			cfg.DPOR = *ts.DPOR
 		}
-		res, err := explore(p, cfg)
+		rp, err := getProg(rs.Files)
+		if err != nil {
+			inconclusive = append(inconclusive, rs.Name+": cannot load /repo with the harness overlay: "+err.Error())
+			continue
+		}
+		res, err := explore(rp, cfg)
 		if err != nil {
 			inconclusive = append(inconclusive, rs.Name+": "+err.Error())
 			continue
@@ -342,6 +362,15 @@ func writeReplay(path, id, tier string, spec *PropSpec, res *RunResult, v *Viola
 		Note: "replay with: ./gpv replay " + path + " (re-executes /repo's current code along the recorded decisions and re-asks the solver)"}
 	b, _ := json.MarshalIndent(rf, "", " ")
 	os.WriteFile(path, append(b, '\n'), 0644)
+}
+
+func runFiles(spec *PropSpec, run string) []string {
+	for _, r := range spec.Runs {
+		if r.Name == run && len(r.Files) > 0 {
+			return r.Files
+		}
+	}
+	return spec.Files
 }
 
 func cmdReplay(args []string) int {
